@@ -24,8 +24,11 @@ import (
 // identifier would not collide with any in-scope reference. Nested
 // struct bodies form child scopes that inherit candidates from their
 // parents. Returns true if we rewrote any label.
-func simplifyLabels(n ast.Node) bool {
-	ls := &labelSimplifier{scope: map[string]bool{}}
+//
+// With mergeEllipsis set, the [Config.Ellipsis] pass follows: decls that
+// it will replace by `...` make no references.
+func simplifyLabels(n ast.Node, mergeEllipsis bool) bool {
+	ls := &labelSimplifier{scope: map[string]bool{}, idents: map[string]bool{}, mergeEllipsis: mergeEllipsis}
 	ls.markReferences(n)
 	return ls.changed
 }
@@ -34,9 +37,14 @@ func simplifyLabels(n ast.Node) bool {
 // whether they are still eligible for unquoting (true means no
 // reference observed yet).
 type labelSimplifier struct {
-	parent  *labelSimplifier
-	scope   map[string]bool
-	changed bool
+	parent *labelSimplifier
+	scope  map[string]bool
+	// idents holds the names bound by identifier labels of this scope:
+	// a reference binds to the innermost scope that has its name here.
+	idents map[string]bool
+	// mergeEllipsis reports whether the Ellipsis pass will run.
+	mergeEllipsis bool
+	changed       bool
 }
 
 // markReferences is the [ast.Walk]-compatible reference visitor, and
@@ -62,12 +70,15 @@ func (s *labelSimplifier) markReferences(n ast.Node) bool {
 
 	case *ast.Ident:
 		// We walk outwards through enclosing scopes and invalidate the
-		// candidate in the innermost scope that has this name. Outer
-		// scopes that happen to also use the name stay valid (shadowing
-		// semantics).
+		// candidate in every scope up to and including the innermost one
+		// in which an identifier label binds this name: a string label
+		// unquoted in any of them would capture the reference. Scopes
+		// further out stay valid (shadowing semantics).
 		for c := s; c != nil; c = c.parent {
 			if _, ok := c.scope[x.Name]; ok {
 				c.scope[x.Name] = false
+			}
+			if c.idents[x.Name] {
 				break
 			}
 		}
@@ -77,7 +88,7 @@ func (s *labelSimplifier) markReferences(n ast.Node) bool {
 
 // processDecls runs the three sub-passes we apply to one body.
 func (s *labelSimplifier) processDecls(decls []ast.Decl) {
-	sc := &labelSimplifier{parent: s, scope: map[string]bool{}}
+	sc := &labelSimplifier{parent: s, scope: map[string]bool{}, idents: map[string]bool{}, mergeEllipsis: s.mergeEllipsis}
 
 	// Sub-pass 1: collect candidates from labels.
 	for _, d := range decls {
@@ -87,10 +98,15 @@ func (s *labelSimplifier) processDecls(decls []ast.Decl) {
 		}
 	}
 
-	// Sub-pass 2: collect references from values.
+	// Sub-pass 2: collect references from values and from labels that
+	// are expressions (dynamic fields, interpolations, patterns).
 	for _, d := range decls {
 		switch x := d.(type) {
 		case *ast.Field:
+			if s.mergeEllipsis && isEllipsisDecl(x) {
+				continue
+			}
+			sc.markLabelReferences(x.Label)
 			ast.Walk(x.Value, sc.markReferences, nil)
 		default:
 			ast.Walk(x, sc.markReferences, nil)
@@ -111,7 +127,7 @@ func (s *labelSimplifier) processDecls(decls []ast.Decl) {
 		if err != nil {
 			continue
 		}
-		if !sc.scope[str] {
+		if !sc.scope[str] || ast.StringLabelNeedsQuoting(str) {
 			continue
 		}
 		f.Label = ast.NewIdent(str)
@@ -119,10 +135,39 @@ func (s *labelSimplifier) processDecls(decls []ast.Decl) {
 	}
 }
 
+// markLabelReferences records the references made by a label that is an
+// expression.
+func (s *labelSimplifier) markLabelReferences(l ast.Label) {
+	switch x := l.(type) {
+	case *ast.Ident, *ast.BasicLit:
+	case *ast.Alias:
+		if e, ok := x.Expr.(ast.Label); ok {
+			s.markLabelReferences(e)
+		}
+	default:
+		// Struct literals inside a label expression are left as they are.
+		ast.Walk(l, s.markIdents, nil)
+	}
+}
+
+// markIdents marks every identifier of an expression as a reference
+// without simplifying the expression itself.
+func (s *labelSimplifier) markIdents(n ast.Node) bool {
+	switch x := n.(type) {
+	case *ast.SelectorExpr:
+		ast.Walk(x.X, s.markIdents, nil)
+		return false
+	case *ast.Ident:
+		s.markReferences(x)
+	}
+	return true
+}
+
 // markStrings walks a label subtree, recording every unquotable string
-// and every identifier as a candidate for the current scope. ListLit
-// and Interpolation labels (pattern constraints, interpolated strings)
-// are not candidates, so we stop the walk there.
+// as a candidate and every identifier as a binding of the current scope.
+// ListLit, Interpolation and ParenExpr labels (pattern constraints,
+// interpolated strings, dynamic fields) are neither, so we stop the walk
+// there.
 func (s *labelSimplifier) markStrings(n ast.Node) bool {
 	switch x := n.(type) {
 	case *ast.BasicLit:
@@ -133,9 +178,9 @@ func (s *labelSimplifier) markStrings(n ast.Node) bool {
 		s.scope[str] = true
 
 	case *ast.Ident:
-		s.scope[x.Name] = true
+		s.idents[x.Name] = true
 
-	case *ast.ListLit, *ast.Interpolation:
+	case *ast.ListLit, *ast.Interpolation, *ast.ParenExpr:
 		return false
 	}
 	return true
